@@ -28,8 +28,9 @@ def frame(rng, target, kind=None, size=None):
     is_call = target.startswith("call_")
     if kind is None:
         kind = rng.choices(
-            ["valid", "valid_big", "wrong_shape", "malformed", "padded", "garbage", "escaped", "flags", "near_blank"],
-            [30, 12, 12, 10, 14, 6, 8, 8, 5])[0]
+            ["valid", "valid_big", "wrong_shape", "malformed", "padded", "garbage", "escaped", "flags", "near_blank",
+             "bad_utf8"],
+            [30, 12, 12, 10, 14, 6, 8, 8, 5, 5])[0]
     pad = rng.randrange(0, 40) if size is None else None
 
     def fit(build):
@@ -136,6 +137,24 @@ def frame(rng, target, kind=None, size=None):
         pre = rng.choice(nb) if rng.random() < 0.6 else b""
         post = rng.choice(nb) if (not pre or rng.random() < 0.5) else b""
         return (pre + f + post, kind)
+    if kind == "bad_utf8":
+        # a well-formed document whose only fault is a string that is not UTF-8 (in a member the target
+        # decodes, in a member name, or in a member the target ignores): not a JSON text; whatever the
+        # decoder of the isolated frame says is the expected result
+        bad = rng.choice([b"\xff", b"\xc3(", b"\xed\xa0\x80", b"\xe2\x82", b"\xf8\x88\x80\x80\x80", b"\xc0\xaf",
+                          b"a\x80b", b"\xf4\x90\x80\x80"])
+        where = rng.randrange(0, 3)
+        if is_call:
+            s = jb({"method": "org.example.Put", "parameters": {"name": "@@", "value": rng.randrange(0, 99)}})
+        else:
+            s = jb({"parameters": {"id": rng.randrange(0, 99), "note": "@@"}})
+        if where == 0:
+            s = s.replace(b"@@", b"ok" + bad + b"k")
+        elif where == 1:
+            s = s.replace(b"@@", b"ok")[:-1] + b',"x' + bad + b'":1}'
+        else:
+            s = s.replace(b"@@", b"ok")[:-1] + b',"extra":"' + bad + b'"}'
+        return (s, kind)
     if kind == "garbage":
         n = rng.randrange(1, 24)
         return (bytes(rng.randrange(1, 256) for _ in range(n)), kind)
